@@ -158,6 +158,14 @@ func stepHook(site string) {
 	}
 }
 
+// hangBudget words the budget a decode exceeded.
+func hangBudget(site string, n int) string {
+	if site == "auto.loop" {
+		return fmt.Sprintf("%d loop iterations", 4000000+4096*n)
+	}
+	return fmt.Sprintf("%d decode steps", 64+16*n)
+}
+
 // InstallStoreHooks replaces the scheduler's hooks by the step counter.
 func InstallStoreHooks() {
 	plenccore.VerifHooks.Yield = stepHook
@@ -428,7 +436,7 @@ func (s *StoreSim) RunCase(c *StoreCase, input, prev []byte, rd *storeReader) (*
 			s.St.MaxSteps = res.steps
 		}
 		if res.hang {
-			return violStore("hang", res.site, fmt.Sprintf("decode of a %d-byte input did not finish within %d steps (loop at %s)", len(input), 64+16*len(input), res.site), c), how
+			return violStore("hang", res.site, fmt.Sprintf("decode of a %d-byte input did not finish within %s (loop at %s)", len(input), hangBudget(res.site, len(input)), res.site), c), how
 		}
 		if res.panicked != "" {
 			return violStore("panic", res.site, fmt.Sprintf("panic: %s at %s", res.panicked, res.site), c), how
@@ -1040,7 +1048,7 @@ func (s *StoreSim) ScaleProbe(seed uint64, idx int, thorough bool) (*Violation, 
 				dt := nanotime() - t0
 				s.St.Decodes++
 				if res.hang {
-					return violStore("hang", res.site, fmt.Sprintf("decode of a %d-byte input (%s) did not finish within %d steps (loop at %s)", len(input), c.Fault, 64+16*len(input), res.site), c), c
+					return violStore("hang", res.site, fmt.Sprintf("decode of a %d-byte input (%s) did not finish within %s (loop at %s)", len(input), c.Fault, hangBudget(res.site, len(input)), res.site), c), c
 				}
 				if res.panicked != "" {
 					return violStore("panic", res.site, fmt.Sprintf("panic: %s at %s (%s)", res.panicked, res.site, c.Fault), c), c
